@@ -158,7 +158,12 @@ pub fn build_case(ch: &mut Ch) -> Case {
         let opts = gen_opts(&mut h);
         let inc = if h.chance(3, 8) { Some((*h.pick(&["shaders/a b.wgsl", "./shaders/a b.wgsl", "shaders/../shaders/a b.wgsl", "missing/x.wgsl"])).to_string()) } else { None };
         let sh = gen_shader(ch, &p);
-        keys.push(Key { wgsl: render(&sh), include_path: inc, opts });
+        let mut wgsl = render(&sh);
+        // two push constant variables, each used by its own entry point, are legal WGSL
+        if crate::props::layouts::has_push(&sh).is_none() && h.chance(1, 3) {
+            wgsl.push_str("struct PcCamera { view: mat4x4<f32>, }\nvar<push_constant> pc_camera: PcCamera;\nvar<push_constant> pc_tint: vec4<f32>;\n@vertex fn vs_two_pc() -> @builtin(position) vec4<f32> { return pc_camera.view[0]; }\n@fragment fn fs_two_pc() -> @location(0) vec4<f32> { return pc_tint; }\n");
+        }
+        keys.push(Key { wgsl, include_path: inc, opts });
     }
     Case { keys, ops, env_seed }
 }
